@@ -111,10 +111,11 @@ class _Controlled:
 class Execution:
     """One controlled run of the R bodies along a choice prefix (then default choices)."""
 
-    def __init__(self, explorer, prefix, strict=False):
+    def __init__(self, explorer, prefix, strict=False, lenient=False):
         self.explorer = explorer
         self.prefix = list(prefix)
         self.strict = strict  # replay mode: the prefix must be consumed exactly, no default choices
+        self.lenient = lenient  # replay on changed code: follow the recording as far as it applies
         R = explorer.nranks
         self.world = vcomm.World(R, _Controlled(self), explorer.send_modes)
         self.sems = [threading.Semaphore(0) for _ in range(R)]
@@ -137,7 +138,10 @@ class Execution:
         if d < len(self.prefix):
             c = self.prefix[d]
             if not 0 <= c < n:
-                raise ScheduleError("recorded choice %d out of range (%d options) at depth %d" % (c, n, d))
+                if self.lenient:
+                    c = 0
+                else:
+                    raise ScheduleError("recorded choice %d out of range (%d options) at depth %d" % (c, n, d))
         else:
             if self.strict and n > 1:
                 raise ScheduleError("recorded schedule too short: choice point with %d options at depth %d" % (n, d))
@@ -219,8 +223,9 @@ class Execution:
                 if exp.visited is not None and len(self.choices) >= len(self.prefix) and self.world.violation is None:
                     key = self.state_key(last)
                     if key in exp.visited:
-                        self.status = "pruned"
-                        break
+                        if exp.prune:
+                            self.status = "pruned"
+                            break
                     else:
                         exp.visited.add(key)
                         self.new_states += 1
@@ -265,7 +270,7 @@ class Report:
 class Explorer:
     def __init__(self, nranks, body, send_modes=vcomm.SEND_MODES, preemption_bound=None, prune=False,
                  max_executions=None, outcome=outcome_digest, local_points=False, step_timeout=120.0,
-                 max_violations=3, stop_on_violation=True):
+                 max_violations=3, stop_on_violation=True, track_states=False):
         self.nranks = nranks
         self.body = body
         self.send_modes = tuple(send_modes)
@@ -277,7 +282,9 @@ class Explorer:
         self.step_timeout = step_timeout
         self.max_violations = max_violations
         self.stop_on_violation = stop_on_violation
+        self.track_states = track_states  # record the state keys without pruning (cross-check of the pruning)
         self.visited = None
+        self.state_set = None
 
     # ------------------------------------------------------------------ single schedules
     def run_schedule(self, choices):
@@ -290,6 +297,15 @@ class Explorer:
         if len(ex.choices) != len(choices):
             raise ScheduleError("recorded schedule has %d choices, execution consumed %d" % (len(choices), len(ex.choices)))
         return ex
+
+    def run_recorded(self, choices):
+        """Re-execute a recorded schedule on possibly changed code (a replay after a fix): follow the recorded
+        choices as far as they apply, then default choices to the end."""
+        saved, self.visited = self.visited, None
+        try:
+            return Execution(self, choices, lenient=True).run()
+        finally:
+            self.visited = saved
 
     def verify(self, choices, trace=None, digest=None, violation_kind=None):
         """A recorded schedule must replay identically twice (and equal to the recording)."""
@@ -311,7 +327,7 @@ class Explorer:
     def explore(self, verify=True):
         rep = Report()
         t0 = time.time()
-        self.visited = set() if self.prune else None
+        self.visited = set() if (self.prune or self.track_states) else None
         prefix = []
         nexec = 0
         while True:
@@ -357,7 +373,7 @@ class Explorer:
             if self.max_executions is not None and nexec >= self.max_executions:
                 rep.exhaustive = False
                 break
-        self.visited = None
+        self.state_set, self.visited = self.visited, None
         if verify:
             if rep.first is not None:
                 self.verify(*rep.first)
